@@ -59,6 +59,7 @@ func shapeOracle(o *Out, input string) {
 	}
 	if (perr == nil) != (cerr == nil) {
 		o.finding(Finding{Property: "C10", Kind: "failing-input", What: "Parse and CreateEvaluator disagree on acceptance", Request: "parse 0 " + hx(input)})
+		o.finding(Finding{Property: "C15", Kind: "failing-input", What: fmt.Sprintf("CreateEvaluator and grammar.Parse do not accept the same strings (Parse err=%v, CreateEvaluator err=%v)", perr != nil, cerr != nil), Request: "parse 0 " + hx(input)})
 	}
 	if perr == nil {
 		if _, ok := pval.(grammar.Expression); !ok || pval == nil {
@@ -193,7 +194,7 @@ func fragParseTokens(g *Gen, n int, o *Out) {
 var pathPool = [][]string{{"a"}, {"foo"}, {"foo", "bar"}, {"a", "0"}, {"a", "b", "c"}, {"x", "key with space"}, {"m", "co:lon"}, {"a/b"}, {"a/b", "c"},
 	{"s", "1", "x"}, {"notes"}, {"anything", "allow"}, {"inside"}, {"order", "island"}, {"ashes"}, {"matchesx"}, {"containsx", "emptyx"}, {"note", "android"}, {"not"}, {"all"}, {"in", "x"}, {"é"}, {"a", "q\"t"}, {"a", "b`t"}, {"a", ""}, {"0"}, {"a", "~tilde"}, {"a", "sl/ash"}, {"X", "Y_z"}, {"any", "b"}}
 var rawPool = []string{"1", "0", "-1", "1.5", "foo", "a b", "", "true", "/usr/bin", "/a", "a/b", "x.y", "q\"t", "b`t", "b\\s", "é日本", "new\nline", "tab\t", "\x00", "\xff\xfe",
-	"007", "1e3", "0x10", "not", "in", "`\r`", "a.0", "-", "~", "12.50", "-0", "a\"`b", "/", "//", "/a b", "/é/1", "contains"}
+	"007", "1e3", "0x10", "(", "[z-a]", "a**", "a{2,1}", "not", "in", "`\r`", "a.0", "-", "~", "12.50", "-0", "a\"`b", "/", "//", "/a b", "/é/1", "contains"}
 
 func (g *Gen) randTree(depth int) GExpr {
 	r := g.r.Intn(100)
@@ -315,7 +316,7 @@ func fragParseBytes(g *Gen, n int, o *Out) {
 		"a == \"\\400\"", "a[\"", "a[", "a[\"x\"", "(", "((", "(a == 1", "a == 1)", "a ==", "== 1", "a == 1 and", "all a as x {", "all a as x { x == 1",
 		"any a as {x == 1}", "a == 1.", "a == 01", "a == -", "a == 1x", "1 in", "1 in 2", "\"/\" == 1", "\"/a~\" == 1", "\"/a~2\" == 1", "\"a\" == 1", "\"\" == 1",
 		"a == \"\xe2\x82\"", "é == 1", "a.é == 1", "\"/é\" == 1", "a\r\n==\r\n1", "a\v== 1", "a == 1\x00", "\xef\xbf\xbd == 1", "\"/\xef\xbf\xbd\" == 1",
-		"a == \"\\ud800\"", "\va == 1", "a == 1\f", "\u00a0a == 1", "a == 1\u00a0", "\u0085a == 1", "a == 1\u2003", "\u3000a == 1\u3000", "\v", "\f", "\u00a0", "\u2003 ", "a is  not  empty", "a is notempty", "a isempty", "not", "not not", "not not a == 1", "a == 1 or", "or", "and a == 1"}
+		"a == \"\\ud800\"", "a matches \"(\"", "foo not matches `[z-a]`", "a matches \"a**\"", "k in x", "\va == 1", "a == 1\f", "\u00a0a == 1", "a == 1\u00a0", "\u0085a == 1", "a == 1\u2003", "\u3000a == 1\u3000", "\v", "\f", "\u00a0", "\u2003 ", "a is  not  empty", "a is notempty", "a isempty", "not", "not not", "not not a == 1", "a == 1 or", "or", "and a == 1"}
 	for _, s := range seeds {
 		emitParse(o, 0, s)
 		shapeOracle(o, s)
